@@ -253,6 +253,10 @@ class ReactionQueryReader(object):
         return radical, charge, valence
 
     def ReadAtomType(self, tree):
+        if tree[0][0] == 'AtomPrefix':
+            raise NotImplementedError("AtomType: atom prefix '" + tree[0][1]
+                                      + "' in a transformation",
+                                      "not supported")
         assert tree[0][0] == 'Symbols'
         symbol = tree[0][1][0]
         # no suffix: neutral closed-shell atom of default valence
